@@ -46,3 +46,35 @@ package timepb
 //@   panics when t.Seconds + d.Seconds + ite(t.Nanos + d.Nanos >= 1000000000, 1, ite(t.Nanos + d.Nanos < 0, -1, 0)) < -9223372036854775808
 //@   ensures[exact] result.Seconds*1000000000 + result.Nanos == t.Seconds*1000000000 + t.Nanos + d.Seconds*1000000000 + d.Nanos
 //@   ensures[normalised] 0 <= result.Nanos && result.Nanos < 1000000000
+
+// Trusted (Go standard library and protobuf-go), in terms of the observers unixsec/unixnano of a time.Time
+// (whole seconds since the Unix epoch, nanoseconds within the second):
+
+//@ extern google.golang.org/protobuf/types/known/timestamppb.Timestamp.AsTime
+//@   pure
+//@   trusted protobuf-go: AsTime is time.Unix(x.Seconds, int64(x.Nanos)).UTC(), which normalises the nanoseconds
+//@   ensures 0 <= unixnano(result0) && unixnano(result0) < 1000000000
+//@   ensures unixsec(result0)*1000000000 + unixnano(result0) == x.Seconds*1000000000 + x.Nanos
+
+//@ extern time.Time.Add
+//@   pure
+//@   trusted Go: t.Add(d) denotes the instant t+d (no saturation while both lie within +-292 billion years, far outside the Timestamp range)
+//@   ensures 0 <= unixnano(result0) && unixnano(result0) < 1000000000
+//@   ensures unixsec(result0)*1000000000 + unixnano(result0) == unixsec(t)*1000000000 + unixnano(t) + d
+
+//@ extern google.golang.org/protobuf/types/known/timestamppb.New
+//@   trusted protobuf-go: New(t) is &Timestamp{Seconds: t.Unix(), Nanos: int32(t.Nanosecond())}
+//@   ensures result0 != nil && fresh(result0)
+//@   ensures result0.Seconds == unixsec(t) && result0.Nanos == unixnano(t)
+
+//@ func AddStd
+//@   property C17
+//@   mode math
+//@   requires[valid-t] t != nil ==> -62135596800 <= t.Seconds && t.Seconds <= 253402300799 && 0 <= t.Nanos && t.Nanos < 1000000000
+//@   ensures[nil] t == nil ==> result == nil
+//@   ensures[fresh] t != nil ==> result != nil && result != t && fresh(result)
+//@   ensures[normalised] t != nil ==> 0 <= result.Nanos && result.Nanos < 1000000000
+//@   ensures[exact] t != nil ==> result.Seconds*1000000000 + result.Nanos == t.Seconds*1000000000 + t.Nanos + d
+//@   note with Add's [exact] and [normalised] and the lemma below, AddStd(t, d) and Add(t, durationpb.New(d)) are the same timestamp
+
+//@ lemma normal-form-is-unique (s1:int64, n1:int64, s2:int64, n2:int64) mode math property C17: 0 <= n1 && n1 < 1000000000 && 0 <= n2 && n2 < 1000000000 && s1*1000000000 + n1 == s2*1000000000 + n2 ==> s1 == s2 && n1 == n2
